@@ -81,6 +81,23 @@ def run_e1(prop, tier, seed, technique, plan, monitor, quick_budget, thorough_bu
             rep.violation(f"[{scn.name}] {v['what']}", v["replay"], sig)
         if post is not None:
             post(rep, scn, res)
+    # binding of the world model to the real state code: replay the default schedule of every scenario with each state-control request
+    # also answered by the real states.setup over the real pool scope logic (in-memory leaf stores)
+    engine.BINDING.update({"on": True, "validated": 0, "mismatches": []})
+    try:
+        done_keys = set()
+        t_bind = time.time()
+        for scn, k, _ in _weighted(plan):
+            key = (scn.parse_key(), scn.shared, json.dumps(scn.own, sort_keys=True))
+            if key in done_keys or time.time() - t_bind > (25 if tier == "quick" else 120):
+                continue
+            done_keys.add(key)
+            engine.execute(scn, [])
+    finally:
+        engine.BINDING["on"] = False
+    rep.extra["world_model_requests_validated_against_real_state_code"] = engine.BINDING["validated"]
+    if engine.BINDING["mismatches"]:
+        raise common.HarnessError("world model disagrees with the real state code: " + json.dumps(engine.BINDING["mismatches"][0])[:600])
     rep.sections["scenarios"] = per_scn
     rep.bounds = {"deviation_bound_per_scenario": {p["scenario"]: p["k"] for p in per_scn},
                   "durations_in_backoff_periods": sorted({d for s, _, _ in _weighted(plan) for d in s.D}),
